@@ -25,6 +25,19 @@ pub enum CreateKind {
     Create,
     Create2,
     CreateTx,
+    /// EOFCREATE from an EOF factory (OSAKA)
+    EofCreate,
+    /// create transaction whose init data is an EOF init container (OSAKA)
+    EofCreateTx,
+}
+
+impl CreateKind {
+    fn is_tx(self) -> bool {
+        matches!(self, CreateKind::CreateTx | CreateKind::EofCreateTx)
+    }
+    fn is_eof(self) -> bool {
+        matches!(self, CreateKind::EofCreate | CreateKind::EofCreateTx)
+    }
 }
 
 #[derive(Clone, Debug, Serialize, Deserialize)]
@@ -52,6 +65,30 @@ fn initcode() -> Bytes {
     let mut p = Asm::new();
     p.push_u(9).push_u(7).op(op::SSTORE);
     wrap_initcode(&p.code, INIT_RUNTIME)
+}
+
+/// EOF runtime deployed by the EOF kinds
+fn eof_runtime() -> Bytes {
+    eof_container(&[op::STOP], 0)
+}
+
+/// EOF init container: SSTORE(7, 9) in the new account, then RETURNCONTRACT of `eof_runtime`
+fn eof_initcontainer() -> Bytes {
+    let mut a = Asm::new();
+    a.push_u(9).push_u(7).op(op::SSTORE);
+    a.push_u(0).push_u(0).op(0xee).raw(&[0]);
+    eof_container_with(&a.code, 2, &[eof_runtime()])
+}
+
+/// EOF factory: slot 0 := EOFCREATE[0](value, salt, no input); slot 3 := 1; STOP.
+/// (GAS does not exist in EOF: the gas consumed is judged from the transaction's gas used.)
+fn eof_factory_code(value: U256, salt: U256) -> Bytes {
+    let mut a = Asm::new();
+    a.push_u(0).push_u(0).push(salt).push(value).op(0xec).raw(&[0]);
+    a.push_u(0).op(op::SSTORE);
+    a.push_u(1).push_u(3).op(op::SSTORE);
+    a.op(op::STOP);
+    eof_container_with(&a.code, 4, &[eof_initcontainer()])
 }
 
 fn factory_code(create2: bool, value: U256, salt: U256) -> Bytes {
@@ -87,16 +124,23 @@ impl Engine for CollideSim {
     }
 
     fn generate(&self, rng: &mut Rng) -> CollideCase {
-        let kind = *rng.pick(&[CreateKind::Create, CreateKind::Create2, CreateKind::CreateTx]);
-        let specs: Vec<SpecId> = LEGACY_SPECS
+        let kind = *rng.pick(&[CreateKind::Create, CreateKind::Create2, CreateKind::CreateTx, CreateKind::Create, CreateKind::Create2, CreateKind::CreateTx, CreateKind::EofCreate, CreateKind::EofCreateTx]);
+        let mut specs: Vec<SpecId> = LEGACY_SPECS
             .iter()
             .cloned()
             .filter(|s| match kind {
                 CreateKind::Create => s.is_enabled_in(SpecId::TANGERINE),
                 CreateKind::Create2 => s.is_enabled_in(SpecId::PETERSBURG),
                 CreateKind::CreateTx => true,
+                CreateKind::EofCreate | CreateKind::EofCreateTx => false,
             })
             .collect();
+        if kind.is_eof() {
+            specs = vec![SpecId::OSAKA];
+        } else if rng.chance(1, 12) {
+            // legacy creates under the EOF fork as well
+            specs = vec![SpecId::OSAKA];
+        }
         let spec = *rng.pick(&specs);
         let stack = *rng.pick(ALL_STACKS);
         let target_state = *rng.pick(&[TargetState::Absent, TargetState::Code, TargetState::Nonce, TargetState::StorageOnly, TargetState::StorageOnly, TargetState::BalanceOnly, TargetState::NonceAndStorage]);
@@ -132,16 +176,17 @@ impl Engine for CollideSim {
         let sender = addr_from(seed, 1);
         let factory = addr_from(seed, 2);
         let toucher = addr_from(seed, 3);
-        let ic = initcode();
+        let ic = if c.kind.is_eof() { eof_initcontainer() } else { initcode() };
+        let runtime: Bytes = if c.kind.is_eof() { eof_runtime() } else { Bytes::from_static(INIT_RUNTIME) };
         let target = match c.kind {
             CreateKind::Create => create_address(factory, c.factory_nonce),
-            CreateKind::Create2 => create2_address(factory, c.salt, &ic),
+            CreateKind::Create2 | CreateKind::EofCreate => create2_address(factory, c.salt, &ic),
             // a warm-up transaction by the same sender bumps its nonce first
-            CreateKind::CreateTx => create_address(sender, c.sender_nonce + c.warm_up_first as u64),
+            CreateKind::CreateTx | CreateKind::EofCreateTx => create_address(sender, c.sender_nonce + c.warm_up_first as u64),
         };
         let mut disk = SimDisk { hash_salt: seed, ..Default::default() };
         disk.accounts.insert(sender, DiskAccount { balance: U256::from(10u64).pow(U256::from(22)), nonce: c.sender_nonce, ..Default::default() });
-        disk.accounts.insert(factory, DiskAccount { balance: U256::from(1_000_000u64), nonce: c.factory_nonce, code: factory_code(c.kind == CreateKind::Create2, c.value, c.salt), ..Default::default() });
+        disk.accounts.insert(factory, DiskAccount { balance: U256::from(1_000_000u64), nonce: c.factory_nonce, code: if c.kind == CreateKind::EofCreate { eof_factory_code(c.value, c.salt) } else { factory_code(c.kind == CreateKind::Create2, c.value, c.salt) }, ..Default::default() });
         // toucher: BALANCE(target); EXTCODESIZE(target)
         let mut t = Asm::new();
         t.push_addr(target).op(op::BALANCE).op(op::POP).push_addr(target).op(op::EXTCODESIZE).op(op::POP).op(op::STOP);
@@ -193,11 +238,8 @@ impl Engine for CollideSim {
         let factory_nonce_before = sys.read_account(factory, &[]).unwrap().map(|a| a.nonce).unwrap_or(0);
         // a failed CREATE leaves the factory 1/64 of its gas; that must cover three SSTOREs
         let gas_limit = 12_000_000u64;
-        let mut tx = match c.kind {
-            CreateKind::CreateTx => TxSpec::simple(sender, None, ic.clone(), gas_limit),
-            _ => TxSpec::simple(sender, Some(factory), Bytes::new(), gas_limit),
-        };
-        if c.kind == CreateKind::CreateTx {
+        let mut tx = if c.kind.is_tx() { TxSpec::simple(sender, None, ic.clone(), gas_limit) } else { TxSpec::simple(sender, Some(factory), Bytes::new(), gas_limit) };
+        if c.kind.is_tx() {
             tx.value = c.value;
         }
         let res = sys.transact_commit(&tx);
@@ -208,8 +250,8 @@ impl Engine for CollideSim {
         let slots = [U256::from(0), U256::from(1), U256::from(2), U256::from(3), U256::from(5), U256::from(7)];
         let after_target = sys.read_account(target, &slots).unwrap();
         let sig_base = |what: &str| vec![("what", what.to_string()), ("target", format!("{:?}", c.target_state)), ("layer", layer.clone())];
-        let collided: Option<bool> = match (&res, c.kind) {
-            (TxOutcome::Ok(ExecutionResult::Halt { reason, gas_used }), CreateKind::CreateTx) => {
+        let collided: Option<bool> = match (&res, c.kind.is_tx()) {
+            (TxOutcome::Ok(ExecutionResult::Halt { reason, gas_used }), true) => {
                 if *reason == HaltReason::CreateCollision {
                     if *gas_used != gas_limit {
                         out.push(Violation::new("C21", "C21.collision", &sig_base("gas-not-consumed"), format!("create transaction collided but used {gas_used} of {gas_limit}")));
@@ -220,8 +262,8 @@ impl Engine for CollideSim {
                     None
                 }
             }
-            (TxOutcome::Ok(ExecutionResult::Success { .. }), CreateKind::CreateTx) => Some(false),
-            (TxOutcome::Ok(ExecutionResult::Success { .. }), _) => {
+            (TxOutcome::Ok(ExecutionResult::Success { .. }), true) => Some(false),
+            (TxOutcome::Ok(ExecutionResult::Success { gas_used, .. }), false) => {
                 let f = sys.read_account(factory, &slots).unwrap().unwrap_or_default();
                 let result = f.storage.get(&U256::from(0)).cloned().unwrap_or_default();
                 let survived = f.storage.get(&U256::from(3)).cloned().unwrap_or_default() == U256::from(1);
@@ -231,7 +273,13 @@ impl Engine for CollideSim {
                 } else if result.is_zero() {
                     // failed create: the gas passed must be gone (all but 1/64 of what was left)
                     let gas_before = f.storage.get(&U256::from(2)).cloned().unwrap_or_default();
-                    let diff = f.storage.get(&U256::from(1)).cloned().unwrap_or_default();
+                    let (gas_before, diff) = if c.kind == CreateKind::EofCreate {
+                        // no GAS opcode in EOF: the transaction's gas used stands in (the
+                        // factory spends < 100k outside the create)
+                        (U256::from(gas_limit - 100_000), U256::from(*gas_used))
+                    } else {
+                        (gas_before, f.storage.get(&U256::from(1)).cloned().unwrap_or_default())
+                    };
                     if diff < gas_before / U256::from(64) * U256::from(60) {
                         out.push(Violation::new("C21", "C21.collision", &sig_base("gas-not-consumed"), format!("failed create consumed {diff} of {gas_before}")));
                     }
@@ -268,7 +316,7 @@ impl Engine for CollideSim {
                     out.push(Violation::new("C21", "C21.collision", &sig_base("target-changed"), format!("collision changed the target: {want:?} -> {now:?}")));
                 }
                 // creator nonce still bumped
-                let (who, before) = if c.kind == CreateKind::CreateTx { (sender, sender_nonce_before) } else { (factory, factory_nonce_before) };
+                let (who, before) = if c.kind.is_tx() { (sender, sender_nonce_before) } else { (factory, factory_nonce_before) };
                 let n = sys.read_account(who, &[]).unwrap().map(|a| a.nonce).unwrap_or(0);
                 if n != before + 1 {
                     out.push(Violation::new("C21", "C21.collision", &sig_base("creator-nonce"), format!("creator nonce {before} -> {n} after a collision")));
@@ -280,7 +328,7 @@ impl Engine for CollideSim {
                 // success: code deployed, old balance kept + value, new storage only
                 let now = after_target.clone().unwrap_or_default();
                 let want_bal = target_before.balance + c.value;
-                if now.code.as_ref() != INIT_RUNTIME || (sc && now.nonce != 1) || now.balance != want_bal || now.storage.get(&U256::from(7)) != Some(&U256::from(9)) {
+                if now.code != runtime || (sc && now.nonce != 1) || now.balance != want_bal || now.storage.get(&U256::from(7)) != Some(&U256::from(9)) {
                     out.push(Violation::new("C21", "C21.collision", &sig_base("bad-creation"), format!("successful creation left {now:?} (expected balance {want_bal})")));
                 }
             }
